@@ -51,6 +51,16 @@ pub fn build_route(m: &M, route: Route) -> Envelope {
         M::Known(n) => Envelope::new(KnownValue::new(*n)),
         M::Wrapped(e) => build_route(e, route).wrap_envelope(),
         M::Assertion(p, o) => Envelope::new_assertion(build_route(p, route), build_route(o, route)),
+        // a node whose subject is a node cannot be assembled by adding assertions (that would extend the inner node); the API reaches this
+        // shape by obscuring the inner node as a whole, adding to the obscured element and revealing the subject again
+        M::Node(s, a) if matches!(**s, M::Node(..)) => {
+            let mut e = build_route(s, route).compress().expect("compress inner node");
+            let n = a.len();
+            let pidx = match route { Route::Envelopes(r) | Route::PredObj(r) => r, _ => 0 };
+            let perm = crate::families::nth_perm(n, pidx);
+            for i in 0..n { e = e.add_assertion_envelope(build_route(&a[perm[i]], route)).expect("assertion"); }
+            e.uncompress_subject().expect("uncompress_subject")
+        }
         M::Node(s, a) => {
             let mut e = build_route(s, route);
             let n = a.len();
